@@ -1634,4 +1634,35 @@ example : (∀ e, e.time < (3 : Rat) → (dagDemo e).length ≤ 2) ∧
     · simp at hc; rcases hc with rfl | rfl <;> simp <;> omega
     · simp at hc
 
+/-! ### Scheduling in batches (session 4) -/
+
+/-- **Scheduling a list of callbacks in two batches is scheduling it in one**: a sequence of
+`add_callback` calls has no hidden state besides the queue and the running counter, so any split of
+the sequence reaches the same system (same heap content, same counters, same clock).  Unbounded in
+both batches. -/
+theorem addAll_append (s : Sys) (l₁ l₂ : List (Rat × Nat)) :
+    addAll s (l₁ ++ l₂) = addAll (addAll s l₁) l₂ := by
+  induction l₁ generalizing s with
+  | nil => rfl
+  | cons c cs ih => obtain ⟨a, b⟩ := c; simp only [List.cons_append, addAll]; exact ih _
+
+/-- **A history of `add_callback` calls is the batch insertion**: the system reached by a history
+consisting only of `add` operations is `addAll` of their arguments — the interface path (`stepOp`,
+what the harness drives call by call) and the batch path (`addAll`, what a running callback does
+with its children) are the same state transformer; no trace is produced and the horizon is kept. -/
+theorem runOps_adds_eq_addAll (kids : Entry → List (Rat × Nat)) (fuel : Nat) (h : Hist)
+    (l : List (Rat × Nat)) :
+    (runOps kids fuel h (l.map fun c => Op.add c.1 c.2)).s = addAll h.s l ∧
+    (runOps kids fuel h (l.map fun c => Op.add c.1 c.2)).trace = h.trace ∧
+    (runOps kids fuel h (l.map fun c => Op.add c.1 c.2)).hz = h.hz := by
+  induction l generalizing h with
+  | nil => exact ⟨rfl, rfl, rfl⟩
+  | cons c cs ih =>
+    obtain ⟨a, b⟩ := c
+    simp only [List.map_cons, runOps, List.foldl_cons]
+    have := ih (stepOp kids fuel h (Op.add a b))
+    simpa only [runOps, stepOp, addAll] using this
+
+example : (addAll init ([(1, 7), (1, 3)] ++ [(1/2, 4), (5, 9)])).queue.length = 4 := by decide +kernel
+
 end HcipyVerif.Scheduler
